@@ -1,7 +1,7 @@
 """C12 — translation is deterministic."""
 import glob, os, subprocess
 from . import common as C
-from . import modgen, modprops
+from . import modgen, modprops, catalog, regen
 from .modprops import hx
 
 TRUSTED = ["Lean 4.33 kernel; axioms: propext, Quot.sound at most (see coverage.axioms_used)"] + modprops.MODEL_TRUST + [
@@ -19,6 +19,17 @@ def gen(tier, rng, harness=None):
     lines = []
     for t in modprops.corpus_texts():
         lines.append("!mod.det - %s" % hx(t))
+    # earlier parse/print activity must not matter: every module against polluters drawn from the catalogue (incl. named non-struct types),
+    # the corpus and other generated modules
+    cat = [t for _, t, _ in catalog.STRUCTURED + catalog.NAMED_NONSTRUCT + catalog.inst_entries() + catalog.DI]
+    texts = modprops.corpus_texts() + [text for _, text, _ in modprops.gen_modules(rng, 20)] + cat
+    plain = ["define i1 @t() {\n\tret i1 true\n}\n", "@b = global i1 false\n@n = global i8* null\n"]
+    for pol in catalog.NAMED_NONSTRUCT:
+        for a in plain + rng.sample(texts, 3):
+            lines.append("!mod.pollute %s %s" % (hx(a), hx(pol[1])))
+            lines.append("!mod.pollute %s %s" % (hx(pol[1]), hx(a)))
+    for _ in range(100 if tier == "quick" else 5000):
+        lines.append("!mod.pollute %s %s" % (hx(rng.choice(texts)), hx(rng.choice(texts))))
     for m, text, sk in modprops.gen_modules(rng, n):
         lines.append("mod.outcome %s %s" % (hx(sk), hx(text)))
         lines.append("mod.lists %s %s" % (hx(sk), hx(text)))
